@@ -98,6 +98,10 @@ def r161(ctx, wr):
                         extra = [norm(e.test) for e in enc_t if id(e) not in enc_m and isinstance(e, ast.If)]
                         if extra:
                             ok = False
+            early = [t for t in trunc if t not in cfg.reach({m_})]
+            ctx.ob('R16.1', '%s:no-truncate-before-the-new-footer-is-written' % key, not early,
+                   'truncate() before the new footer has been written (and validated) destroys the old footer when the update '
+                   'is refused: %s' % [norm(cfg.nodes[t].stmt) for t in early], wr.loc(cfg.nodes[m_].stmt))
             appending_only = (q == 'write_simple')
             ctx.ob('R16.1', '%s:in-place-footer-rewrite-ends-with-unconditional-truncate' % key, ok,
                    'opened %s; after the closing magic every normal path must truncate() so that a footer that '
